@@ -22,8 +22,8 @@ type Node struct {
 	Keys []any   // keys for gomap (string), Catalog/Map (any)
 }
 
-func L(v any) *Node                       { return &Node{Kind: "leaf", Leaf: v} }
-func C(kind string, kids ...*Node) *Node  { return &Node{Kind: kind, Kids: kids} }
+func L(v any) *Node                      { return &Node{Kind: "leaf", Leaf: v} }
+func C(kind string, kids ...*Node) *Node { return &Node{Kind: kind, Kids: kids} }
 func M(kind string, keys []any, kids ...*Node) *Node {
 	return &Node{Kind: kind, Kids: kids, Keys: keys}
 }
